@@ -100,7 +100,30 @@ theorem fact_update_order : seqUpdate = ["calc", "manual", "setPwm"] := by decid
     the initialisation sequence may have run: one `restore` after `runInit`, one each for the failing
     second load / attach, and inside the loop one on `ctx.Done` and one after a failed `update` -/
 theorem fact_run_restores :
-    seqRun = ["runInit", "restore", "restore", "restore", "computePwmMap", "loop{", "loop{", "restore", "update", "restore"] := by decide
+    seqRun.filter (fun x => x != "func{" && x != "return") =
+      ["runInit", "restore", "restore", "restore", "computePwmMap", "loop{", "loop{", "restore", "update", "restore"] := by decide
+
+/-- split a call sequence into the bodies of its function literals -/
+def splitFuncs : List String → List (List String)
+  | [] => [[]]
+  | x :: xs =>
+    match splitFuncs xs with
+    | [] => [[x]]
+    | seg :: rest => if x == "func{" then [] :: seg :: rest else (x :: seg) :: rest
+
+/-- every `return` in the segment is immediately preceded by `restore` -/
+def returnsRestore : List String → Bool
+  | [] => true
+  | [_] => true
+  | x :: y :: rest => (y != "return" || x == "restore") && returnsRestore (y :: rest)
+
+/-- the control-loop actor of `Run` (the closure that calls `UpdateFanSpeed`): EVERY exit path of that
+    closure calls `restorePwmEnabled` right before returning, and the closure does not start with a
+    bare `return` -/
+theorem fact_control_actor_exits_restore :
+    ((splitFuncs seqRun).filter (·.contains "update")).length = 1 ∧
+    ((splitFuncs seqRun).filter (·.contains "update")).all
+      (fun seg => returnsRestore seg && seg.head? != some "return" && seg.contains "return") = true := by decide
 
 /-- `RunDaemon`: the signal channel is registered and never closed nor unregistered, no actor panics,
     and the group is run exactly once -/
